@@ -27,9 +27,12 @@ EXTENDS GQLBase
 \* isTypeOf: the object type has an IsTypeOf function (accepting exactly sources of its own runtime type)
 \* noRT: the abstract type has no ResolveType (the default resolution tries the implementers' IsTypeOf)
 \* plain: the object's fields have no resolver (DefaultResolveFn reads a map source by field name)
+\* selfres: the object's fields have no resolver either, but its source values resolve their own fields
+\*          (graphql.FieldResolver): for the specification an ordinary type - every field resolution is an
+\*          invocation with source, arguments and info - reached through the default resolver
 LOCAL Ty(kind) == [kind |-> kind, fields |-> <<>>, ifaces |-> <<>>, members |-> <<>>,
                    values |-> <<>>, inputs |-> <<>>, defrt |-> "",
-                   isTypeOf |-> FALSE, noRT |-> FALSE, plain |-> FALSE]
+                   isTypeOf |-> FALSE, noRT |-> FALSE, plain |-> FALSE, selfres |-> FALSE]
 LOCAL F(n, t) == [name |-> n, type |-> t, args |-> <<>>]
 LOCAL Arg(n, t) == [name |-> n, type |-> t, hasDef |-> FALSE, def |-> NullV]
 LOCAL ArgD(n, t, d) == [name |-> n, type |-> t, hasDef |-> TRUE, def |-> d]
@@ -47,6 +50,7 @@ S1 ==
                  F("ll", TList(TList(N("O")))),
                  F("d", N("D")), F("dl", TList(N("D"))), F("it", N("IT")), F("itl", TList(N("IT"))), F("ta", N("TA")),
                  F("el", TList(N("E"))), F("eln", TNN(TList(N("E")))), F("uo", N("UO")),
+                 F("sr", N("SR")), F("srl", TList(N("SR"))),
                  \* leaves of the other built-in scalar types
                  F("fl", N("Float")), F("bo", N("Boolean")), F("idf", N("ID")), F("fnn", TNN(N("Float"))),
                  [name |-> "f", type |-> N("Int"),
@@ -77,6 +81,10 @@ S1 ==
                                  !.ifaces = <<"I">>],
      B |-> [Ty("OBJECT") EXCEPT !.fields = << F("x", N("String")), F("q", N("String")) >>,
                                  !.ifaces = <<"I">>],
+     SR |-> [Ty("OBJECT") EXCEPT !.fields = << F("p", N("String")),
+                                               [name |-> "r", type |-> N("String"),
+                                                args |-> << Arg("y", N("Int")), ArgD("d", N("Int"), IntV("7")), Arg("e", N("E")) >>] >>,
+                                  !.selfres = TRUE],
      D |-> [Ty("OBJECT") EXCEPT !.fields = << F("p", N("String")), F("q", N("Int")), F("r", N("String")) >>,
                                  !.plain = TRUE],
      IT |-> [Ty("INTERFACE") EXCEPT !.fields = << F("x", N("String")) >>, !.defrt = "TA", !.noRT = TRUE],
